@@ -2,6 +2,17 @@ import MJ.Model.Meta
 /-! Basic facts about the analysis state operations and about frames (C18). -/
 namespace MJ.Meta
 
+/-- what the tracker has reported so far: `out` without nested tracking, otherwise the roots of
+the dotted names in `nested_out` -/
+def St.reported (st : St) (x : String) : Prop :=
+  match st.nested with
+  | none => x ∈ st.out
+  | some n => ∃ a, (x, a) ∈ n
+
+theorem reported_none {st : St} (h : st.nested = none) (x : String) :
+    st.reported x ↔ x ∈ st.out := by
+  simp [St.reported, h]
+
 theorem isAssigned_iff (st : St) (x : String) :
     st.isAssigned x = true ↔ ∃ f ∈ st.assigned, x ∈ f := by
   simp [St.isAssigned]
@@ -22,6 +33,19 @@ theorem bound_push (top : Frame) (below : List Frame) (x : String) :
     bound [] (top :: below) x = bound top below x := by
   simp [bound]
 
+theorem bound_cons_iff (f top : Frame) (below : List Frame) (x : String) :
+    bound f (top :: below) x = true ↔ x ∈ f ∨ bound top below x = true := by
+  simp only [bound_iff, List.mem_cons]
+  constructor
+  · rintro (h | ⟨g, hg | hg, hx⟩)
+    · exact Or.inl h
+    · subst hg; exact Or.inr (Or.inl hx)
+    · exact Or.inr (Or.inr ⟨g, hg, hx⟩)
+  · rintro (h | h | ⟨g, hg, hx⟩)
+    · exact Or.inl h
+    · exact Or.inr ⟨top, Or.inl rfl, h⟩
+    · exact Or.inr ⟨g, Or.inr hg, hx⟩
+
 theorem bound_mono {top top' : Frame} {below : List Frame} {x : String}
     (h : ∀ y ∈ top, y ∈ top') (hb : bound top below x = true) : bound top' below x = true := by
   rw [bound_iff] at *
@@ -35,28 +59,44 @@ theorem unbound_anti {top top' : Frame} {below : List Frame} {x : String}
   · rfl
   · rw [bound_mono h hx] at hb; cases hb
 
-/-- unbound above a pushed frame that extends the empty one ⇒ unbound outside -/
+/-- unbound above a pushed frame ⇒ unbound outside -/
 theorem unbound_of_push {f top : Frame} {below : List Frame} {x : String}
     (hb : bound f (top :: below) x = false) : bound top below x = false := by
-  rw [bound_false_iff] at *
-  intro h
-  apply hb
-  rcases h with h | ⟨g, hg, hx⟩
-  · exact Or.inr ⟨top, by simp, h⟩
-  · exact Or.inr ⟨g, by simp [hg], hx⟩
+  cases hx : bound top below x
+  · rfl
+  · have := (bound_cons_iff f top below x).2 (Or.inr hx)
+    rw [this] at hb; cases hb
 
 /-! ### `Step a b`: `b` arises from `a` by a scope-local piece of the walk -/
 
 structure Step (a b : St) : Prop where
   tail : ∀ f fs, a.assigned = f :: fs → ∃ g, b.assigned = g :: fs
+  rep : ∀ x, a.reported x → b.reported x
   out : ∀ x ∈ a.out, x ∈ b.out
-  bad : ∀ f fs, a.assigned = f :: fs → b.bad = a.bad
+  bad : ∀ f _fs, a.assigned = f :: _fs → b.bad = a.bad
+  mode : b.nested.isSome = a.nested.isSome
+
+theorem Step.nn {a b : St} (h : Step a b) (hn : a.nested = none) : b.nested = none := by
+  have := h.mode
+  rw [hn] at this
+  cases hb : b.nested with
+  | none => rfl
+  | some n => rw [hb] at this; cases this
+
+theorem Step.sn {a b : St} (h : Step a b) {n : List Leaf} (hn : a.nested = some n) :
+    ∃ m, b.nested = some m := by
+  have := h.mode
+  rw [hn] at this
+  cases hb : b.nested with
+  | none => rw [hb] at this; cases this
+  | some m => exact ⟨m, rfl⟩
 
 theorem Step.refl (a : St) : Step a a :=
-  ⟨fun f _ h => ⟨f, h⟩, fun _ h => h, fun _ _ _ => rfl⟩
+  ⟨fun f _ h => ⟨f, h⟩, fun _ h => h, fun _ h => h, fun _ _ _ => rfl, rfl⟩
 
 theorem Step.trans {a b c : St} (h1 : Step a b) (h2 : Step b c) : Step a c := by
-  refine ⟨?_, fun x hx => h2.out x (h1.out x hx), ?_⟩
+  refine ⟨?_, fun x hx => h2.rep x (h1.rep x hx), fun x hx => h2.out x (h1.out x hx), ?_,
+    h2.mode.trans h1.mode⟩
   · intro f fs h
     obtain ⟨g, hg⟩ := h1.tail f fs h
     exact h2.tail g fs hg
@@ -64,36 +104,65 @@ theorem Step.trans {a b c : St} (h1 : Step a b) (h2 : Step b c) : Step a c := by
     obtain ⟨g, hg⟩ := h1.tail f fs h
     rw [h2.bad g fs hg, h1.bad f fs h]
 
+theorem assign_out (st : St) (x : String) : (st.assign x).out = st.out := by
+  unfold St.assign; split <;> rfl
+
+theorem assign_nested (st : St) (x : String) : (st.assign x).nested = st.nested := by
+  unfold St.assign; split <;> rfl
+
+theorem assign_reported (st : St) (x y : String) : (st.assign x).reported y ↔ st.reported y := by
+  simp [St.reported, assign_out, assign_nested]
+
 theorem step_assign (st : St) (x : String) : Step st (st.assign x) := by
-  refine ⟨?_, ?_, ?_⟩
+  refine ⟨?_, fun y hy => (assign_reported st x y).2 hy, fun y hy => by rw [assign_out]; exact hy,
+    ?_, by rw [assign_nested]⟩
   · intro f fs h
     exact ⟨x :: f, by simp [St.assign, h]⟩
-  · intro y hy
-    unfold St.assign
-    split <;> exact hy
   · intro f fs h
     simp [St.assign, h]
 
-theorem step_visitVar (st : St) (x : String) : Step st (visitVar st x) := by
-  unfold visitVar
-  split
-  · exact Step.refl st
-  · refine Step.trans (b := { st with out := x :: st.out }) ?_ (step_assign _ x)
-    exact ⟨fun f fs h => ⟨f, h⟩, fun y hy => List.mem_cons_of_mem _ hy, fun _ _ _ => rfl⟩
+theorem visitLeaf_pos {st : St} {l : Leaf} (h : st.isAssigned l.1 = true) : visitLeaf st l = st := by
+  simp [visitLeaf, h]
 
-theorem step_visitVars (st : St) (xs : List String) : Step st (visitVars st xs) := by
-  induction xs generalizing st with
+theorem visitLeaf_flat {st : St} {l : Leaf} (h : ¬ st.isAssigned l.1 = true)
+    (hn : st.nested = none) :
+    visitLeaf st l = ({ st with out := l.1 :: st.out } : St).assign l.1 := by
+  simp [visitLeaf, h, hn]
+
+theorem visitLeaf_nested {st : St} {l : Leaf} {n : List Leaf} (h : ¬ st.isAssigned l.1 = true)
+    (hn : st.nested = some n) :
+    visitLeaf st l = { st with nested := some (l :: n) } := by
+  simp [visitLeaf, h, hn]
+
+theorem step_visitLeaf (st : St) (l : Leaf) : Step st (visitLeaf st l) := by
+  by_cases ha : st.isAssigned l.1 = true
+  · rw [visitLeaf_pos ha]; exact Step.refl st
+  · cases hn : st.nested with
+    | none =>
+      rw [visitLeaf_flat ha hn]
+      refine Step.trans (b := { st with out := l.1 :: st.out }) ?_ (step_assign _ l.1)
+      refine ⟨fun f fs h => ⟨f, h⟩, ?_, fun y hy => List.mem_cons_of_mem _ hy, fun _ _ _ => rfl,
+        rfl⟩
+      intro y hy
+      simp only [St.reported, hn] at hy ⊢
+      exact List.mem_cons_of_mem _ hy
+    | some n =>
+      rw [visitLeaf_nested ha hn]
+      refine ⟨fun f fs h => ⟨f, h⟩, ?_, fun y hy => hy, fun _ _ _ => rfl, by simp [hn]⟩
+      intro y hy
+      simp only [St.reported, hn] at hy ⊢
+      obtain ⟨a, ha⟩ := hy
+      exact ⟨a, List.mem_cons_of_mem _ ha⟩
+
+theorem step_visitLeaves (st : St) (ls : List Leaf) : Step st (visitLeaves st ls) := by
+  induction ls generalizing st with
   | nil => exact Step.refl st
   | cons x xs ih =>
-    simp only [visitVars, List.foldl_cons]
-    exact Step.trans (step_visitVar st x) (ih (visitVar st x))
+    simp only [visitLeaves, List.foldl_cons]
+    exact Step.trans (step_visitLeaf st x) (ih (visitLeaf st x))
 
-theorem visitVars_append (st : St) (xs ys : List String) :
-    visitVars st (xs ++ ys) = visitVars (visitVars st xs) ys := by
-  simp [visitVars, List.foldl_append]
-
-theorem step_visitExpr (st : St) (e : Expr) : Step st (visitExpr st e) := step_visitVars _ _
-theorem step_visitOpt (st : St) (e : Option Expr) : Step st (visitOpt st e) := step_visitVars _ _
+theorem step_visitExpr (st : St) (e : Expr) : Step st (visitExpr st e) := step_visitLeaves _ _
+theorem step_visitOpt (st : St) (e : Option Expr) : Step st (visitOpt st e) := step_visitLeaves _ _
 
 theorem step_trackAtom (st : St) (a : TAtom) : Step st (trackAtom st a) := by
   cases a with
@@ -128,158 +197,150 @@ theorem step_withAssigns (st : St) (as : List (Expr × Expr)) : Step st (withAss
     simp only [withAssigns]
     exact Step.trans (Step.trans (step_visitExpr st e) (step_trackAssign _ t)) (ih _)
 
+theorem pop_reported (st : St) (x : String) : st.pop.reported x ↔ st.reported x := Iff.rfl
+theorem push_reported (st : St) (x : String) : st.push.reported x ↔ st.reported x := Iff.rfl
+
 /-- a pushed scope that is walked and popped leaves the stack as it was -/
 theorem step_scope {a b : St} (h : Step a.push b) :
-    b.pop.assigned = a.assigned ∧ (∀ x ∈ a.out, x ∈ b.pop.out) ∧ b.pop.bad = a.bad := by
+    b.pop.assigned = a.assigned ∧ (∀ x, a.reported x → b.pop.reported x) ∧ b.pop.bad = a.bad := by
   obtain ⟨g, hg⟩ := h.tail [] a.assigned rfl
-  refine ⟨by simp [St.pop, hg], fun x hx => h.out x hx, ?_⟩
+  refine ⟨by simp [St.pop, hg], fun x hx => h.rep x hx, ?_⟩
   have := h.bad [] a.assigned rfl
   simpa [St.pop, St.push] using this
 
 theorem step_of_scope {a b : St} (h : Step a.push b) : Step a b.pop := by
   obtain ⟨h1, h2, h3⟩ := step_scope h
-  exact ⟨fun f fs hf => ⟨f, by rw [h1, hf]⟩, h2, fun _ _ _ => h3⟩
+  exact ⟨fun f fs hf => ⟨f, by rw [h1, hf]⟩, h2, fun x hx => h.out x hx, fun _ _ _ => h3,
+    h.mode⟩
 
 /-! ### the simulation invariant -/
 
 /-- every name the analysis considers assigned is already reported or bound in a frame -/
 def Inv (top : Frame) (below : List Frame) (st : St) : Prop :=
-  ∀ x, st.isAssigned x = true → x ∈ st.out ∨ bound top below x = true
+  ∀ x, st.isAssigned x = true → st.reported x ∨ bound top below x = true
+
+/-- the invariant depends on the frames only through what they bind -/
+theorem Inv.of_bound {top top' : Frame} {below below' : List Frame} {st : St}
+    (h : Inv top below st)
+    (hb : ∀ x, bound top below x = true → bound top' below' x = true) : Inv top' below' st :=
+  fun x hx => (h x hx).imp id (hb x)
 
 theorem Inv.mono_top {top top' : Frame} {below : List Frame} {st : St}
-    (h : Inv top below st) (hs : ∀ y ∈ top, y ∈ top') : Inv top' below st := by
-  intro x hx
-  rcases h x hx with h | h
-  · exact Or.inl h
-  · exact Or.inr (bound_mono hs h)
+    (h : Inv top below st) (hs : ∀ y ∈ top, y ∈ top') : Inv top' below st :=
+  h.of_bound (fun _ hx => bound_mono hs hx)
 
 theorem Inv.push_frame {top : Frame} {below : List Frame} {st : St}
-    (h : Inv top below st) : Inv [] (top :: below) st := by
-  intro x hx
-  rw [bound_push]
-  exact h x hx
+    (h : Inv top below st) : Inv [] (top :: below) st :=
+  h.of_bound (fun x hx => by rw [bound_push]; exact hx)
+
+theorem isAssigned_push (st : St) (y : String) : st.push.isAssigned y = st.isAssigned y := by
+  simp [St.isAssigned, St.push]
 
 theorem Inv.push {top : Frame} {below : List Frame} {st : St}
     (h : Inv top below st) : Inv top below st.push := by
   intro x hx
-  apply h x
-  rw [isAssigned_iff] at *
-  obtain ⟨f, hf, hxf⟩ := hx
-  simp only [St.push, List.mem_cons] at hf
-  rcases hf with rfl | hf
-  · cases hxf
-  · exact ⟨f, hf, hxf⟩
+  rw [isAssigned_push] at hx
+  exact h x hx
 
 /-- transfer of the invariant along equal stacks and a larger report -/
 theorem Inv.of_assigned_eq {top : Frame} {below : List Frame} {a b : St}
-    (h : Inv top below a) (he : b.assigned = a.assigned) (ho : ∀ x ∈ a.out, x ∈ b.out) :
+    (h : Inv top below a) (he : b.assigned = a.assigned) (ho : ∀ x, a.reported x → b.reported x) :
     Inv top below b := by
   intro x hx
   have : a.isAssigned x = true := by
     rw [isAssigned_iff] at *; rw [← he]; exact hx
-  rcases h x this with h | h
-  · exact Or.inl (ho x h)
-  · exact Or.inr h
+  exact (h x this).imp (ho x) id
+
+theorem isAssigned_assign_imp (st : St) (x y : String)
+    (h : (st.assign x).isAssigned y = true) : y = x ∨ st.isAssigned y = true := by
+  rw [isAssigned_iff] at h
+  obtain ⟨f, hf, hyf⟩ := h
+  unfold St.assign at hf
+  split at hf
+  · rename_i g gs hg
+    simp only [List.mem_cons] at hf
+    rcases hf with rfl | hf
+    · simp only [List.mem_cons] at hyf
+      rcases hyf with rfl | hyf
+      · exact Or.inl rfl
+      · exact Or.inr ((isAssigned_iff _ _).2 ⟨g, by simp [hg], hyf⟩)
+    · exact Or.inr ((isAssigned_iff _ _).2 ⟨f, by simp [hg, hf], hyf⟩)
+  · exact Or.inr ((isAssigned_iff _ _).2 ⟨f, hf, hyf⟩)
 
 theorem inv_assign {top : Frame} {below : List Frame} {st : St} (x : String)
     (h : Inv top below st) : Inv (x :: top) below (st.assign x) := by
   intro y hy
-  by_cases hxy : y = x
-  · subst hxy
-    exact Or.inr (by simp [bound])
-  · have hy' : st.isAssigned y = true := by
-      rw [isAssigned_iff] at *
-      obtain ⟨f, hf, hyf⟩ := hy
-      unfold St.assign at hf
-      split at hf
-      · rename_i g gs hg
-        simp only [List.mem_cons] at hf
-        rcases hf with rfl | hf
-        · simp only [List.mem_cons] at hyf
-          rcases hyf with rfl | hyf
-          · exact absurd rfl hxy
-          · exact ⟨g, by simp [hg], hyf⟩
-        · exact ⟨f, by simp [hg, hf], hyf⟩
-      · exact ⟨f, hf, hyf⟩
-    rcases h y hy' with h | h
-    · left
-      unfold St.assign
-      split <;> exact h
+  rcases isAssigned_assign_imp st x y hy with rfl | hy'
+  · exact Or.inr (by simp [bound])
+  · rcases h y hy' with h | h
+    · exact Or.inl ((assign_reported st x y).2 h)
     · exact Or.inr (bound_mono (fun z hz => List.mem_cons_of_mem _ hz) h)
 
 /-- an assignment of a name that some frame binds anyway -/
 theorem inv_assign_bound {top : Frame} {below : List Frame} {st : St} (x : String)
     (h : Inv top below st) (hb : bound top below x = true) : Inv top below (st.assign x) := by
   intro y hy
-  by_cases hxy : y = x
-  · subst hxy; exact Or.inr hb
-  · have := inv_assign x h y hy
-    rcases this with h1 | h1
-    · exact Or.inl h1
-    · right
-      rw [bound_iff] at *
-      rcases h1 with h1 | h1
-      · simp only [List.mem_cons] at h1
-        rcases h1 with rfl | h1
-        · exact absurd rfl hxy
-        · exact Or.inl h1
-      · exact Or.inr h1
+  rcases isAssigned_assign_imp st x y hy with rfl | hy'
+  · exact Or.inr hb
+  · exact (h y hy').imp (assign_reported st x y).2 id
 
-theorem inv_visitVar {top : Frame} {below : List Frame} {st : St} (x : String)
+theorem inv_visitLeaf {top : Frame} {below : List Frame} {st : St} (l : Leaf)
     (h : Inv top below st) :
-    Inv top below (visitVar st x) ∧ (bound top below x = false → x ∈ (visitVar st x).out) := by
-  unfold visitVar
-  split
-  · rename_i ha
+    Inv top below (visitLeaf st l) ∧
+      (bound top below l.1 = false → (visitLeaf st l).reported l.1) := by
+  by_cases ha : st.isAssigned l.1 = true
+  · rw [visitLeaf_pos ha]
     refine ⟨h, fun hb => ?_⟩
-    rcases h x ha with h1 | h1
+    rcases h l.1 ha with h1 | h1
     · exact h1
     · rw [hb] at h1; cases h1
-  · rename_i ha
-    have hout : x ∈ (({ st with out := x :: st.out } : St).assign x).out := by
-      unfold St.assign
-      split <;> simp
-    refine ⟨?_, fun _ => hout⟩
-    intro y hy
-    by_cases hxy : y = x
-    · subst hxy; exact Or.inl hout
-    · have hy' : st.isAssigned y = true := by
-        rw [isAssigned_iff] at *
-        obtain ⟨f, hf, hyf⟩ := hy
-        unfold St.assign at hf
-        split at hf
-        · rename_i g gs hg
-          simp only at hg
-          simp only [List.mem_cons] at hf
-          rcases hf with rfl | hf
-          · simp only [List.mem_cons] at hyf
-            rcases hyf with rfl | hyf
-            · exact absurd rfl hxy
-            · exact ⟨g, by simp [hg], hyf⟩
-          · exact ⟨f, by simp [hg, hf], hyf⟩
-        · exact ⟨f, hf, hyf⟩
-      rcases h y hy' with h1 | h1
-      · left
-        unfold St.assign
-        split <;> simp [h1]
-      · exact Or.inr h1
+  · cases hn : st.nested with
+    | none =>
+      rw [visitLeaf_flat ha hn]
+      have hrep : (({ st with out := l.1 :: st.out } : St).assign l.1).reported l.1 := by
+        rw [assign_reported]; simp [St.reported, hn]
+      refine ⟨?_, fun _ => hrep⟩
+      intro y hy
+      rcases isAssigned_assign_imp _ _ _ hy with rfl | hy'
+      · exact Or.inl hrep
+      · have hy'' : st.isAssigned y = true := hy'
+        rcases h y hy'' with h1 | h1
+        · left
+          rw [assign_reported]
+          simp only [St.reported, hn] at h1 ⊢
+          exact List.mem_cons_of_mem _ h1
+        · exact Or.inr h1
+    | some n =>
+      rw [visitLeaf_nested ha hn]
+      refine ⟨?_, fun _ => ?_⟩
+      · intro y hy
+        have hy' : st.isAssigned y = true := hy
+        rcases h y hy' with h1 | h1
+        · left
+          simp only [St.reported, hn] at h1 ⊢
+          obtain ⟨a, ha⟩ := h1
+          exact ⟨a, List.mem_cons_of_mem _ ha⟩
+        · exact Or.inr h1
+      · simp only [St.reported]
+        exact ⟨l.2, by simp⟩
 
-theorem inv_visitVars {top : Frame} {below : List Frame} (xs : List String) {st : St}
+theorem inv_visitLeaves {top : Frame} {below : List Frame} (ls : List Leaf) {st : St}
     (h : Inv top below st) :
-    Inv top below (visitVars st xs) ∧ ∀ x ∈ lookups top below xs, x ∈ (visitVars st xs).out := by
-  induction xs generalizing st with
-  | nil => exact ⟨h, fun x hx => by simp [lookups] at hx⟩
+    Inv top below (visitLeaves st ls) ∧
+      ∀ x ∈ lookups top below (roots ls), (visitLeaves st ls).reported x := by
+  induction ls generalizing st with
+  | nil => exact ⟨h, fun x hx => by simp [lookups, roots] at hx⟩
   | cons y ys ih =>
-    obtain ⟨h1, h2⟩ := inv_visitVar y h
+    obtain ⟨h1, h2⟩ := inv_visitLeaf y h
     obtain ⟨h3, h4⟩ := ih h1
-    have hs : visitVars st (y :: ys) = visitVars (visitVar st y) ys := by simp [visitVars]
+    have hs : visitLeaves st (y :: ys) = visitLeaves (visitLeaf st y) ys := by simp [visitLeaves]
     rw [hs]
     refine ⟨h3, fun x hx => ?_⟩
     rw [mem_lookups] at hx
     obtain ⟨hx1, hx2⟩ := hx
-    simp only [List.mem_cons] at hx1
+    simp only [roots, List.map_cons, List.mem_cons] at hx1
     rcases hx1 with rfl | hx1
-    · exact (step_visitVars _ ys).out _ (h2 hx2)
+    · exact (step_visitLeaves _ ys).rep _ (h2 hx2)
     · exact h4 x ((mem_lookups _ _ _ _).2 ⟨hx1, hx2⟩)
 
 end MJ.Meta
